@@ -94,6 +94,10 @@ type fsTraceMix struct {
 func randFsItems(rng *rand.Rand, mix fsTraceMix) []fsItem {
 	n := 2 + rng.Intn(11)
 	maxDepth := 2 + rng.Intn(4)
+	manyRoots := rng.Intn(5) == 0 // one history in five: eight or more roots, shallow
+	if manyRoots {
+		n, maxDepth = 10+rng.Intn(5), 2
+	}
 	names := append([][]string{}, fsTraceNames...)
 	if rng.Float64() < mix.hostile {
 		names = append(names, fsTraceHostile[rng.Intn(len(fsTraceHostile))])
@@ -121,6 +125,9 @@ func randFsItems(rng *rand.Rand, mix fsTraceMix) []fsItem {
 					d = 1 // another root
 				}
 			}
+		}
+		if manyRoots && i > 0 && rng.Intn(5) > 0 {
+			d = 1 // mostly roots
 		}
 		items = append(items, fsItem{D: d, N: names[rng.Intn(len(names))]})
 	}
